@@ -20,7 +20,9 @@ EXTRA = [{}, {"kid": "stored-1"}, {"use": "sig"}, {"use": "enc", "alg": "ECDH-ES
          {"kid": "k/ü", "use": "sig", "key_ops": ["verify"]}, {"x5t": "abc", "kid": "with-x5t"},
          # certificate members without a kid (what an X.509-backed directory publishes)
          {"x5t": "dGh1bWJwcmludC1zaGEx"}, {"x5t#S256": "dGh1bWJwcmludC1zaGEyNTYtb2YtdGhlLWNlcnQ", "x5c": ["MIIB"]},
-         {"x5u": "https://ca.example/cert.pem", "x5t": "eDV0", "alg": "ES256"}]
+         {"x5u": "https://ca.example/cert.pem", "x5t": "eDV0", "alg": "ES256"},
+         # members no registry knows (WebCrypto's ext, OpenID Federation's iat / exp, a private extension)
+         {"ext": True}, {"iat": 1700000000, "exp": 1800000000}, {"https://example.com/jwk-ext": {"a": [1, 2]}, "use": "sig"}]
 
 
 def gen_material(rng: Rng, kind, rare=None) -> RKey:
@@ -62,6 +64,16 @@ def provision(key: RKey, how: str, params: dict | None = None):
         # a "public" RSA JWK that still carries the factors and CRT members (d stripped by a careless exporter):
         # whatever import makes of it, nothing public-facing may republish them
         d = {k: v for k, v in rk.to_jwk(key, True).items() if k != "d"}
+        d.update(params or {})
+        return JWKRegistry.import_key(d)
+    if how == "jwk-short-coordinates":
+        # a peer that writes integers minimally: leading zero octets of x / y / d stripped (RFC 7518 wants the full length;
+        # importers are lenient).  Whatever import makes of it, nothing public-facing carries d
+        d = rk.to_jwk(key, True)
+        for name in ("x", "y", "d"):
+            if name in d:
+                raw = b64.dec(d[name]).lstrip(b"\x00") or b"\x00"
+                d[name] = b64.enc(raw)
         d.update(params or {})
         return JWKRegistry.import_key(d)
     if how == "native":
@@ -159,7 +171,10 @@ def jwk_faults(jwk: dict, rng: Rng):
             d = copy.deepcopy(jwk)
             del d[name]
             yield ("delete-required", "member %s deleted" % name, d)
+    registered = {"kty", "use", "key_ops", "alg", "kid", "x5u", "x5c", "x5t", "x5t#S256", "crv", "x", "y", "d", "n", "e", "p", "q", "dp", "dq", "qi", "oth", "k"}
     for name in list(jwk):
+        if name not in registered:
+            continue        # a member no registry knows may hold any JSON value
         cur = jwk[name]
         for val in OTHER_TYPES:
             if type(val) is type(cur) and not (isinstance(val, str)):
